@@ -185,7 +185,9 @@ def bulk_history(rng, n_items, profile='full'):
 ALPHA = ['a', '\r', '\n', '\0', '\x85', ' ', '\U0001F600', '\ud800']
 
 
-def c01_values(rng, mfs, disk, n_random=6):
+def c01_values(rng, mfs, disk, n_random=6, bom=True):
+    """bom=False gives the list as it was when golden/ was recorded (mkgolden relies on it)"""
+    alpha = ALPHA[:-1] + (['\ufeff'] if bom else [])
     m = max(mfs, 1)
     lens = sorted({0, 1, max(m - 1, 0), m, m + 1, 2 * m})
     vals = []
@@ -193,12 +195,14 @@ def c01_values(rng, mfs, disk, n_random=6):
         if L > 70000:
             continue
         vals.append('a' * L)
-        vals.append(''.join(rng.choice(ALPHA[:-1]) for _ in range(L)))
+        vals.append(''.join(rng.choice(alpha) for _ in range(L)))
         if disk == 'pickle':
             vals.append(b'\x00\xff\r\n'[:1] * L)
             vals.append(bytes(rng.randrange(256) for _ in range(min(L, 300))) + b'z' * max(0, L - 300))
         vals.append(list(range(L // 3)))
     vals += ['\ud800', 'x\ud800' * m, 'ok' * m + '\udfff']      # lone surrogates: inline and file-sized
+    if bom:
+        vals += ['\ufeff', '\ufeff' + 'b' * m, '\ufeff\ufeff' + 'c' * (2 * m), 'd' * m + '\ufeff']      # a BOM is a character like any other
     vals += [0, -1, 2 ** 63 - 1, -2 ** 63, 2 ** 63, -2 ** 63 - 1, 2 ** 200,
              0.0, -0.0, 1.5, float('inf'), float('-inf'), float('nan'), 5e-324, 1.7976931348623157e308,
              None, True, False, [], {}, {'k': [1, 2.5, None, 'x']}, [[1, [2, [3]]]] * 3]
